@@ -23,7 +23,7 @@ import (
 type c10Case struct {
 	Files   map[string]string
 	Names   []string
-	SrcInfo bool
+	SrcInfo int // protocompile.SourceInfoMode bits (0..7)
 	Mode    string // "proto": every output re-supplied as an unlinked proto; "desc": dependencies re-supplied as linked descriptors; "mixed"
 }
 
@@ -48,15 +48,13 @@ func allFiles(files linker.Files) map[string]protoreflect.FileDescriptor {
 }
 
 func c10Check(c c10Case, r *ev.Rec) error {
-	mode := protocompile.SourceInfoNone
-	if c.SrcInfo {
-		mode = protocompile.SourceInfoStandard
-	}
+	mode := protocompile.SourceInfoMode(c.SrcInfo)
 	first, err := compileMap(c.Files, c.Names, compileOpts{SrcInfo: mode})
 	if err != nil {
 		return fmt.Errorf("first compilation failed: %v\n%s", err, showFiles(c.Files))
 	}
 	all := allFiles(first)
+	types := extTypes(all)
 	protos := map[string]*descriptorpb.FileDescriptorProto{}
 	for p, f := range all {
 		protos[p] = fdProto(f)
@@ -74,6 +72,15 @@ func c10Check(c c10Case, r *ev.Rec) error {
 		case c.Mode == "desc" && !requested[path], c.Mode == "mixed" && !requested[path] && len(path)%2 == 0:
 			return protocompile.SearchResult{Desc: all[path]}, nil
 		}
+		if c.Mode == "proto-bytes" {
+			// as if the descriptors had been written to a file and read back by a program that does not
+			// know the custom options: extension values arrive as unknown fields
+			back := &descriptorpb.FileDescriptorProto{}
+			if err := proto.Unmarshal(detBytes(fd), back); err != nil {
+				return protocompile.SearchResult{}, err
+			}
+			return protocompile.SearchResult{Proto: back}, nil
+		}
 		return protocompile.SearchResult{Proto: proto.Clone(fd).(*descriptorpb.FileDescriptorProto)}, nil
 	})
 	comp := protocompile.Compiler{Resolver: res, SourceInfoMode: mode}
@@ -85,9 +92,16 @@ func c10Check(c c10Case, r *ev.Rec) error {
 	for _, f := range second {
 		want := protos[f.Path()]
 		got := fdProto(f)
-		if !bytes.Equal(detBytes(got), detBytes(want)) {
+		same := bytes.Equal(detBytes(got), detBytes(want))
+		if !same && c.Mode == "proto-bytes" {
+			// after a serialization round trip without the option schema the order in which unknown
+			// (extension) option fields are re-encoded is not pinned by the property; compare as messages
+			// decoded against the compiled schema instead
+			same = semanticEqual(got, want, types)
+		}
+		if !same {
 			g, w := proto.Clone(got).(*descriptorpb.FileDescriptorProto), proto.Clone(want).(*descriptorpb.FileDescriptorProto)
-			return fmt.Errorf("re-linked descriptor of %s is not byte-identical (mode %s, source info %v)\n%s\nsource:\n%s", f.Path(), c.Mode, c.SrcInfo, firstDiff(textOf(g), textOf(w)), c.Files[f.Path()])
+			return fmt.Errorf("re-linked descriptor of %s is not byte-identical (mode %s, source info mode %d)\n%s\nsource:\n%s", f.Path(), c.Mode, c.SrcInfo, firstDiff(textOf(g), textOf(w)), c.Files[f.Path()])
 		}
 		if len(want.Dependency) > 0 || len(want.MessageType) > 0 {
 			hasRef = true
@@ -97,7 +111,7 @@ func c10Check(c c10Case, r *ev.Rec) error {
 		}
 	}
 	nt, labels := wsNontrivial(wsCase{Files: c.Files})
-	labels = append(labels, "mode="+c.Mode, fmt.Sprintf("srcinfo=%v", c.SrcInfo))
+	labels = append(labels, "mode="+c.Mode, fmt.Sprintf("srcinfo=%d", c.SrcInfo))
 	if hasCustom {
 		labels = append(labels, "file-options")
 	}
@@ -108,13 +122,13 @@ func c10Check(c c10Case, r *ev.Rec) error {
 	return nil
 }
 
-const c10Rule = "compile, then feed every produced FileDescriptorProto (imports included) back through a resolver as an unlinked proto (mode proto), with imports as already-linked descriptors (mode desc) or a mix, with and without source info; oracle: second compilation succeeds and each requested file's deterministic encoding is byte-identical; non-trivial = workspace has resolved references plus options/defaults or several files; distinct by case"
+const c10Rule = "compile, then feed every produced FileDescriptorProto (imports included) back through a resolver as an unlinked proto (mode proto; mode proto-bytes: after a marshal/unmarshal round trip without the custom option schema), with imports as already-linked descriptors (mode desc) or a mix, under every source-info mode (none, standard, extra comments, extra option locations and their combinations; the same mode for both compilations); oracle: second compilation succeeds and each requested file's deterministic encoding is byte-identical (mode proto-bytes: equal as messages decoded against the compiled schema); non-trivial = workspace has resolved references plus options/defaults or several files; distinct by case"
 
 func TestC10_Generated(t *testing.T) {
 	ev.Run(t, ev.Spec[c10Case]{ID: "C10", Name: "Generated", Quick: 900, Thorough: 40000, Rule: "generated valid workspaces; " + c10Rule,
 		Gen: func(t *rapid.T) c10Case {
 			ws := gen.GenWorkspace(t, gen.Config{})
-			return c10Case{Files: ws.PrintAll(), Names: ws.Names(), SrcInfo: rapid.Bool().Draw(t, "srcinfo"), Mode: rapid.SampledFrom([]string{"proto", "proto", "desc", "mixed"}).Draw(t, "mode")}
+			return c10Case{Files: ws.PrintAll(), Names: ws.Names(), SrcInfo: gen.Uniform(t, 8, "srcinfo"), Mode: gen.Pick(t, []string{"proto", "proto", "proto-bytes", "desc", "mixed"}, "mode")}
 		},
 		Check: c10Check})
 }
@@ -124,8 +138,8 @@ func TestC10_Corpus(t *testing.T) {
 		Check: c10Check}, true, func(yield func(c10Case) bool) {
 		for _, ws := range corpus() {
 			for _, root := range ws.Roots {
-				for _, mode := range []string{"proto", "desc", "mixed"} {
-					for _, si := range []bool{false, true} {
+				for _, mode := range []string{"proto", "proto-bytes", "desc", "mixed"} {
+					for _, si := range []int{0, 1, 2, 4, 7} {
 						if !yield(c10Case{Files: ws.Files, Names: []string{root}, SrcInfo: si, Mode: mode}) {
 							return
 						}
